@@ -48,6 +48,9 @@ type Recorder struct {
 	Property  string
 	Unit      string
 	Rule      string
+	// ReplayUnit names the unit whose Replay test can re-execute the cases of this recorder
+	// (differs from Unit for Regress units); written into in-flight and fail files.
+	ReplayUnit string
 	outDir    string
 	shard     int
 	evals     int
@@ -109,9 +112,16 @@ func (r *Recorder) Inflight(c any) {
 	_ = os.WriteFile(p, wrap(r, c, "process died while executing this case"), 0o644)
 }
 
+func (r *Recorder) replayUnit() string {
+	if r.ReplayUnit != "" {
+		return r.ReplayUnit
+	}
+	return r.Unit
+}
+
 func wrap(r *Recorder, c any, msg string) []byte {
 	b, _ := json.MarshalIndent(map[string]any{
-		"property": r.Property, "unit": r.Unit, "message": msg, "case": json.RawMessage(canon(c)),
+		"property": r.Property, "unit": r.replayUnit(), "message": msg, "case": json.RawMessage(canon(c)),
 	}, "", " ")
 	return b
 }
@@ -322,6 +332,7 @@ func VerifDir() string {
 func Regress[C any](t *testing.T, property, unit string, exec func(C) Result) {
 	t.Helper()
 	r := New(property, unit+"Regress", "committed minimal reproductions of repaired defects (regress/"+property+"/), re-run as plain cases")
+	r.ReplayUnit = unit
 	defer r.Flush()
 	cases, names := LoadCases[C](t, filepath.Join(VerifDir(), "regress", property), unit)
 	for i, c := range cases {
@@ -330,12 +341,6 @@ func Regress[C any](t *testing.T, property, unit string, exec func(C) Result) {
 		res.NonTrivial = true
 		r.Record(c, res)
 		if res.Err != nil {
-			// make the fail file name the right unit so that --replay finds it
-			if p := r.path("fail", "json"); p != "" {
-				r.Unit = unit
-				_ = os.WriteFile(p, wrap(r, c, res.Err.Error()), 0o644)
-				r.Unit = unit + "Regress"
-			}
 			t.Fatalf("regression case %s fails again: %v", names[i], res.Err)
 		}
 	}
